@@ -102,7 +102,7 @@ Proof. intros [[g (Hg & Ha & Ht)] H1 Hr] E. constructor; cbn; [exists g; rewrite
 
 Lemma J_step b s l s' :
   J s -> (b = true \/ excl_label s l = true) ->
-  step_gen b s l = Some s' -> J s' /\ gc_le (gc (sto s)) (gc (sto s')).
+  step_gen b false s l = Some s' -> J s' /\ gc_le (gc (sto s)) (gc (sto s')).
 Proof.
   intros Hj He H.
   assert (Hrefl : forall s0, J s0 -> gc_le (gc (sto s0)) (gc (sto s0))).
@@ -194,72 +194,183 @@ Section GuardedExec.
   Variable G : state -> label -> bool.
   Hypothesis HG : forall s l, G s l = true -> (b = true \/ excl_label s l = true).
 
-  Lemma J_exec ls : guarded (step_gen b) G init ls = true -> J (exec (step_gen b) init ls).
+  Lemma J_exec ls : guarded (step_gen b false) G init ls = true -> J (exec (step_gen b false) init ls).
   Proof.
-    apply (invariant_guarded (step_gen b) G J); [|exact J_init].
+    apply (invariant_guarded (step_gen b false) G J); [|exact J_init].
     intros s l s' Hj Hg Hs. exact (proj1 (J_step b s l s' Hj (HG _ _ Hg) Hs)).
   Qed.
 
   Lemma monotone_guarded ls l s' :
-    guarded (step_gen b) G init (ls ++ [l]) = true ->
-    step_gen b (exec (step_gen b) init ls) l = Some s' ->
-    gc_le (gc (sto (exec (step_gen b) init ls))) (gc (sto s')).
+    guarded (step_gen b false) G init (ls ++ [l]) = true ->
+    step_gen b false (exec (step_gen b false) init ls) l = Some s' ->
+    gc_le (gc (sto (exec (step_gen b false) init ls))) (gc (sto s')).
   Proof.
     intros Hg Hs. destruct (guarded_last _ _ _ _ _ _ Hg Hs) as [Hg1 Hg2].
     exact (proj2 (J_step b _ l s' (J_exec ls Hg1) (HG _ _ Hg2) Hs)).
   Qed.
 
   Lemma responses_guarded ls r bf a :
-    guarded (step_gen b) G init ls = true ->
-    In (r, bf) (resps (exec (step_gen b) init ls)) -> In a bf -> a <= r.
+    guarded (step_gen b false) G init ls = true ->
+    In (r, bf) (resps (exec (step_gen b false) init ls)) -> In a bf -> a <= r.
   Proof. intros Hg. apply (j_resp _ (J_exec ls Hg)). Qed.
 
   Lemma acks_le_stored_guarded ls a :
-    guarded (step_gen b) G init ls = true -> In a (acks (exec (step_gen b) init ls)) ->
-    exists g, gc_read (gc (sto (exec (step_gen b) init ls))) = Some g /\ a <= g.
+    guarded (step_gen b false) G init ls = true -> In a (acks (exec (step_gen b false) init ls)) ->
+    exists g, gc_read (gc (sto (exec (step_gen b false) init ls))) = Some g /\ a <= g.
   Proof. intros Hg Hin. destruct (j_read _ (J_exec ls Hg)) as (g & Hr & Ha & _). exists g; auto. Qed.
 End GuardedExec.
 
-Lemma guarded_no_guard b ls : forall s, guarded (step_gen b) no_guard s ls = true.
+Lemma guarded_no_guard b c ls : forall s, guarded (step_gen b c) no_guard s ls = true.
 Proof.
   induction ls as [|l r IH]; intros s; cbn [guarded]; [reflexivity|].
-  destruct (step_gen b s l); [cbn; apply IH | apply IH].
+  destruct (step_gen b c s l); [cbn; apply IH | apply IH].
 Qed.
 
-(* the code as it is now: UpdateGCSafePoint holds gcSafePointLock from before LoadGCSafePoint to its return *)
-Lemma gc_locked_now : gc_locked = true.
-Proof. reflexivity. Qed.
-
-Lemma no_guard_ok : forall s l, no_guard s l = true -> (gc_locked = true \/ excl_label s l = true).
-Proof. intros; left; exact gc_locked_now. Qed.
 Lemma excl_ok b : forall s l, excl_label s l = true -> (b = true \/ excl_label s l = true).
 Proof. intros; right; assumption. Qed.
 
+(* ---------- the compare-and-swap regime: any number of request threads, of any member, overlapping freely ---------- *)
+Lemma cas_ok_read g old : cas_ok g old = true -> gc_read g = Some old.
+Proof.
+  destruct g as [|z|]; cbn; intros H; try discriminate.
+  - apply Z.eqb_eq in H. congruence.
+  - apply andb_true_iff in H as [_ H]. apply Z.eqb_eq in H. congruence.
+Qed.
+
+Record K (s : state) : Prop := {
+  k_read : exists g, gc_read (gc (sto s)) = Some g
+             /\ (forall a, In a (acks s) -> a <= g)
+             /\ (forall t p, thr s t = Some p -> t_old p <= g /\ forall a, In a (t_before p) -> a <= t_old p);
+  k_resp : forall r bf a, In (r, bf) (resps s) -> In a bf -> a <= r
+}.
+
+Lemma K_init : K init.
+Proof.
+  constructor; cbn; [|intros; contradiction].
+  exists 0. split; [reflexivity|]. split; [intros ? []|intros; discriminate].
+Qed.
+
+Lemma K_set_sto s st : K s -> gc st = gc (sto s) -> K (set_sto s st).
+Proof. intros [[g (Hg & Ha & Ht)] Hr] E. constructor; cbn; [exists g; rewrite E; auto | exact Hr]. Qed.
+
+Lemma K_step b s l s' : K s -> step_gen b true s l = Some s' -> K s' /\ gc_le (gc (sto s)) (gc (sto s')).
+Proof.
+  intros Hk H.
+  assert (Hrefl : forall s0, K s0 -> gc_le (gc (sto s0)) (gc (sto s0))).
+  { intros s0 [[g (Hg & _)] _]. exists g, g. split; [exact Hg|split; [exact Hg|lia]]. }
+  destruct l as [t v|t o| |i ttl sp now|i|i exp sp]; cbn [step_gen] in H.
+  - (* LLoad *)
+    destruct (thr s t) eqn:Et; [discriminate|].
+    destruct (b && negb (Nat.eqb (npend s) 0)); [discriminate|].
+    destruct Hk as [[g (Hg & Ha & Ht)] Hr]. rewrite Hg in H. injection H as <-.
+    split; [|exists g, g; cbn; split; [exact Hg|split; [exact Hg|lia]]].
+    constructor; cbn; [|exact Hr].
+    exists g. split; [exact Hg|]. split; [exact Ha|]. intros t' p'.
+    destruct (Nat.eqb t' t); intros Hp; [injection Hp as <-; cbn; split; [lia|exact Ha] | apply (Ht _ _ Hp)].
+  - (* LSave *)
+    destruct (thr s t) as [p|] eqn:Et; [|discriminate].
+    destruct Hk as [[g (Hg & Ha & Ht)] Hr]. destruct (Ht _ _ Et) as [Hold Hbf].
+    assert (Hrest : forall g', g <= g' -> forall t' p', (if Nat.eqb t' t then None else thr s t') = Some p' ->
+              t_old p' <= g' /\ forall a, In a (t_before p') -> a <= t_old p').
+    { intros g' Hle t' p'. destruct (Nat.eqb t' t); intros Hp; [discriminate|]. destruct (Ht _ _ Hp). split; [lia|assumption]. }
+    destruct (t_old p <? t_new p) eqn:Ecmp.
+    + apply Z.ltb_lt in Ecmp. cbn [andb] in H.
+      destruct (cas_ok (gc (sto s)) (t_old p)) eqn:Ecas; cbn [negb] in H.
+      * (* the comparison holds: what is stored is what the request saw *)
+        apply cas_ok_read in Ecas. rewrite Hg in Ecas. injection Ecas as Eg.
+        destruct o; injection H as <-.
+        -- split; [constructor; cbn|exists g, (t_new p); cbn; split; [exact Hg|split; [reflexivity|lia]]].
+           ++ exists (t_new p). split; [reflexivity|]. split; [intros a [<-|Hin]; [lia | specialize (Ha _ Hin); lia]|].
+              apply Hrest. lia.
+           ++ intros r bf a [Heq|Hin] Hia; [injection Heq as <- <-; specialize (Hbf _ Hia); lia | eauto].
+        -- split; [constructor; cbn|exists g, g; split; [exact Hg|split; [exact Hg|lia]]].
+           ++ exists g. split; [exact Hg|]. split; [exact Ha|]. apply Hrest. lia.
+           ++ exact Hr.
+        -- split; [constructor; cbn|exists g, (t_new p); cbn; split; [exact Hg|split; [reflexivity|lia]]].
+           ++ exists (t_new p). split; [reflexivity|]. split; [intros a Hin; specialize (Ha _ Hin); lia|]. apply Hrest. lia.
+           ++ exact Hr.
+      * (* the stored value moved: refused, nothing changes *)
+        injection H as <-. split; [constructor; cbn|exists g, g; split; [exact Hg|split; [exact Hg|lia]]].
+        -- exists g. split; [exact Hg|]. split; [exact Ha|]. apply Hrest. lia.
+        -- exact Hr.
+    + apply Z.ltb_ge in Ecmp. injection H as <-.
+      set (r := if t_new p <? t_old p then t_old p else t_new p).
+      assert (Hrr : t_old p <= r /\ r <= g).
+      { unfold r. destruct (t_new p <? t_old p) eqn:E2; [lia | apply Z.ltb_ge in E2; lia]. }
+      split; [constructor; cbn|exists g, g; cbn; split; [exact Hg|split; [exact Hg|lia]]].
+      * exists g. split; [exact Hg|]. split; [intros a [<-|Hin]; [lia | auto]|]. apply Hrest. lia.
+      * intros r0 bf a [Heq|Hin] Hia; [injection Heq as <- <-; specialize (Hbf _ Hia); lia | eauto].
+  - (* LGet *)
+    pose proof Hk as [[g (Hg & Ha & Ht)] Hr]. rewrite Hg in H. injection H as <-.
+    split; [constructor; cbn|exists g, g; cbn; split; [exact Hg|split; [exact Hg|lia]]].
+    + exists g. split; [exact Hg|]. split; [|exact Ht]. intros a [<-|Hin]; [lia | auto].
+    + intros r bf a [Heq|Hin] Hia; [injection Heq as <- <-; auto | eauto].
+  - injection H as <-.
+    pose proof (svc_update_gc (sto s) i ttl sp now) as E.
+    split; [apply K_set_sto; assumption|]. cbn. rewrite E. apply Hrefl; exact Hk.
+  - destruct (remove_service i (sto s)) as [st|] eqn:Er; injection H as <-; [|split; [exact Hk | apply Hrefl; exact Hk]].
+    apply remove_service_gc in Er.
+    split; [apply K_set_sto; assumption|]. cbn. rewrite Er. apply Hrefl; exact Hk.
+  - destruct (key_of i) as [|n|] eqn:Ek; injection H as <-; try (split; [exact Hk | apply Hrefl; exact Hk]).
+    split; [apply K_set_sto; [assumption|reflexivity]|]. cbn. apply Hrefl; exact Hk.
+Qed.
+
+Lemma K_exec b ls : K (exec (step_gen b true) init ls).
+Proof. apply invariant_exec; [|exact K_init]. intros s l s' Hk Hs. exact (proj1 (K_step b s l s' Hk Hs)). Qed.
+
+(* the code as it is now: the save is a compare-and-swap on the loaded value (and leader-guarded); requests of one member
+   are additionally serialised by gcSafePointLock *)
+Lemma gc_cas_now : gc_cas = true.
+Proof. reflexivity. Qed.
+Lemma gc_locked_now : gc_locked = true.
+Proof. reflexivity. Qed.
+
 (* ---------- all executions of the code as it is ---------- *)
+Lemma step_is_cas : step = step_gen gc_locked true.
+Proof. unfold step. rewrite gc_cas_now. reflexivity. Qed.
+
 Lemma gc_monotone_pf ls l s' :
   step (exec step init ls) l = Some s' -> gc_le (gc (sto (exec step init ls))) (gc (sto s')).
-Proof. apply (monotone_guarded gc_locked no_guard no_guard_ok). apply guarded_no_guard. Qed.
+Proof. rewrite step_is_cas. intros H. exact (proj2 (K_step gc_locked _ l s' (K_exec gc_locked ls) H)). Qed.
 
 Lemma response_ge_pf ls r bf a : In (r, bf) (resps (exec step init ls)) -> In a bf -> a <= r.
-Proof. apply (responses_guarded gc_locked no_guard no_guard_ok). apply guarded_no_guard. Qed.
+Proof. rewrite step_is_cas. apply (k_resp _ (K_exec gc_locked ls)). Qed.
 
 Lemma acks_le_stored_pf ls a : In a (acks (exec step init ls)) ->
   exists g, gc_read (gc (sto (exec step init ls))) = Some g /\ a <= g.
-Proof. apply (acks_le_stored_guarded gc_locked no_guard no_guard_ok). apply guarded_no_guard. Qed.
+Proof. rewrite step_is_cas. intros Hin. destruct (k_read _ (K_exec gc_locked ls)) as (g & Hr & Ha & _). exists g; auto. Qed.
+
+(* the same for any number of members: without any mutex, with the compare-and-swap *)
+Lemma cas_alone_monotone_pf ls l s' :
+  step_gen false true (exec (step_gen false true) init ls) l = Some s' ->
+  gc_le (gc (sto (exec (step_gen false true) init ls))) (gc (sto s')).
+Proof. intros H. exact (proj2 (K_step false _ l s' (K_exec false ls) H)). Qed.
+
+Lemma cas_alone_response_pf ls r bf a : In (r, bf) (resps (exec (step_gen false true) init ls)) -> In a bf -> a <= r.
+Proof. apply (k_resp _ (K_exec false ls)). Qed.
+
+(* a write that arrives after the stored value has moved is refused: nothing is stored, nothing acknowledged *)
+Lemma stale_save_refused_pf b s t o p s' :
+  thr s t = Some p -> t_old p < t_new p -> cas_ok (gc (sto s)) (t_old p) = false ->
+  step_gen b true s (LSave t o) = Some s' -> sto s' = sto s /\ acks s' = acks s /\ resps s' = resps s /\ thr s' t = None.
+Proof.
+  intros Ht Hlt Hc H. cbn [step_gen] in H. rewrite Ht in H.
+  apply Z.ltb_lt in Hlt. rewrite Hlt, Hc in H. cbn in H. injection H as <-. cbn. rewrite Nat.eqb_refl. auto.
+Qed.
 
 (* ---------- the old witnesses ---------- *)
 (* S6: A loads 5, B loads 5, B saves 20, A saves 10. *)
 Definition w_overlap : list label := [LLoad 0 5; LSave 0 Ok; LLoad 0 10; LLoad 1 20; LSave 1 Ok].
 
-(* without the mutex (step_gen false, the code before the fix) the last step takes the store from 20 back to 10 *)
+(* without the mutex and without the compare-and-swap (step_gen false false, the code before both fixes) the last step takes the store from 20 back to 10 *)
 Lemma overlap_decreases_without_mutex :
-  exists s', step_gen false (exec (step_gen false) init w_overlap) (LSave 0 Ok) = Some s'
-             /\ gc (sto (exec (step_gen false) init w_overlap)) = GVal 20 /\ gc (sto s') = GVal 10.
+  exists s', step_gen false false (exec (step_gen false false) init w_overlap) (LSave 0 Ok) = Some s'
+             /\ gc (sto (exec (step_gen false false) init w_overlap)) = GVal 20 /\ gc (sto s') = GVal 10.
 Proof. eexists. split; [vm_compute; reflexivity|]. split; vm_compute; reflexivity. Qed.
 
 Lemma without_mutex_refuted_pf :
-  ~ (forall ls l s', step_gen false (exec (step_gen false) init ls) l = Some s' ->
-       gc_le (gc (sto (exec (step_gen false) init ls))) (gc (sto s'))).
+  ~ (forall ls l s', step_gen false false (exec (step_gen false false) init ls) l = Some s' ->
+       gc_le (gc (sto (exec (step_gen false false) init ls))) (gc (sto s'))).
 Proof.
   intros H. destruct overlap_decreases_without_mutex as (s' & Hs & Ha & Hb).
   destruct (H _ _ _ Hs) as (x & y & Hx & Hy & Hle). rewrite Ha in Hx. rewrite Hb in Hy.
@@ -797,14 +908,14 @@ Definition label_ok (l : label) : Prop :=
 (* no raw writes into storage behind the handlers' back *)
 Definition no_seed (l : label) : Prop := match l with LSeed _ _ _ => False | _ => True end.
 
-Lemma wf_step b s l s' :
-  wf_svcs (svcs (sto s)) -> label_ok l -> step_gen b s l = Some s' -> wf_svcs (svcs (sto s')).
+Lemma wf_step b c s l s' :
+  wf_svcs (svcs (sto s)) -> label_ok l -> step_gen b c s l = Some s' -> wf_svcs (svcs (sto s')).
 Proof.
   intros Hwf Hok H. destruct l as [t v|t o| |i ttl sp now|i|i exp sp]; cbn [step_gen] in H.
   - destruct (thr s t); [discriminate|]. destruct (b && negb (Nat.eqb (npend s) 0)); [discriminate|].
     destruct (gc_read (gc (sto s))); inversion H; subst; exact Hwf.
   - destruct (thr s t) as [p|]; [|discriminate].
-    destruct (t_old p <? t_new p); [destruct o|]; inversion H; subst; cbn; exact Hwf.
+    destruct (t_old p <? t_new p); [destruct (c && negb (cas_ok (gc (sto s)) (t_old p))); [|destruct o]|]; inversion H; subst; cbn; exact Hwf.
   - destruct (gc_read (gc (sto s))); inversion H; subst; exact Hwf.
   - inversion H; subst. cbn. destruct Hok as [Hsp Hnow].
     destruct (svc_update (sto s) i ttl sp now) as [st' [r|]] eqn:E; cbn.
@@ -818,15 +929,15 @@ Proof.
     apply wf_save; [exact Hwf | exact Hok |]. intros n0 Hk Ht. inversion Hk; subst. eapply key_text_ok; eauto.
 Qed.
 
-Lemma gcw_step b s l s' :
+Lemma gcw_step b c s l s' :
   wf_svcs (svcs (sto s)) -> gcw_ok (svcs (sto s)) -> label_ok l -> no_seed l ->
-  step_gen b s l = Some s' -> gcw_ok (svcs (sto s')).
+  step_gen b c s l = Some s' -> gcw_ok (svcs (sto s')).
 Proof.
   intros Hwf Hg Hok Hcl H. destruct l as [t v|t o| |i ttl sp now|i|i exp sp]; cbn [step_gen] in H.
   - destruct (thr s t); [discriminate|]. destruct (b && negb (Nat.eqb (npend s) 0)); [discriminate|].
     destruct (gc_read (gc (sto s))); inversion H; subst; exact Hg.
   - destruct (thr s t) as [p|]; [|discriminate].
-    destruct (t_old p <? t_new p); [destruct o|]; inversion H; subst; cbn; exact Hg.
+    destruct (t_old p <? t_new p); [destruct (c && negb (cas_ok (gc (sto s)) (t_old p))); [|destruct o]|]; inversion H; subst; cbn; exact Hg.
   - destruct (gc_read (gc (sto s))); inversion H; subst; exact Hg.
   - inversion H; subst. cbn. destruct Hok as [Hsp Hnow].
     destruct (svc_update (sto s) i ttl sp now) as [st' [r|]] eqn:E; cbn.
@@ -842,24 +953,24 @@ Proof.
   - destruct Hcl.
 Qed.
 
-Lemma gcw_stays_pf b : forall ls s,
+Lemma gcw_stays_pf b c : forall ls s,
   wf_svcs (svcs (sto s)) -> gcw_ok (svcs (sto s)) -> Forall (fun l => label_ok l /\ no_seed l) ls ->
-  gcw_ok (svcs (sto (exec (step_gen b) s ls))).
+  gcw_ok (svcs (sto (exec (step_gen b c) s ls))).
 Proof.
   induction ls as [|l r IH]; intros s Hwf Hg Hall; cbn [exec]; [exact Hg|].
   inversion Hall as [|? ? [Hok Hcl] Hr]; subst.
-  destruct (step_gen b s l) as [s'|] eqn:E; [|apply IH; assumption].
+  destruct (step_gen b c s l) as [s'|] eqn:E; [|apply IH; assumption].
   apply IH; [eapply wf_step; eauto | eapply gcw_step; eauto | exact Hr].
 Qed.
 
 Lemma wf_init : wf_svcs (svcs (sto init)).
 Proof. split; [exact I|]. intros k e H. discriminate H. Qed.
 
-Lemma wf_exec_pf b : forall ls s, wf_svcs (svcs (sto s)) -> Forall label_ok ls -> wf_svcs (svcs (sto (exec (step_gen b) s ls))).
+Lemma wf_exec_pf b c : forall ls s, wf_svcs (svcs (sto s)) -> Forall label_ok ls -> wf_svcs (svcs (sto (exec (step_gen b c) s ls))).
 Proof.
   induction ls as [|l r IH]; intros s Hwf Hall; cbn [exec]; [exact Hwf|].
   inversion Hall as [|? ? Hok Hr]; subst.
-  destruct (step_gen b s l) as [s'|] eqn:E; [|apply IH; assumption].
+  destruct (step_gen b c s l) as [s'|] eqn:E; [|apply IH; assumption].
   apply IH; [eapply wf_step; eauto | exact Hr].
 Qed.
 
